@@ -42,8 +42,9 @@ pub assume_specification<'a, T: Copy>[Option::<&'a T>::copied](o: Option<&'a T>)
 pub fn vx_string_from(s: &str) -> (r: String) { s.to_string() }
 #[verifier::external_body]
 pub fn vx_lossy_string(b: &[u8]) -> (r: String) { String::new() }
+pub uninterp spec fn str_contains_spec(s: Seq<char>, p: Seq<char>) -> bool;
 #[verifier::external_body]
-pub fn vx_str_contains(s: &String, pat: &str) -> (r: bool) { s.contains(pat) }
+pub fn vx_str_contains(s: &String, pat: &str) -> (r: bool) ensures r == str_contains_spec(s@, pat@) { s.contains(pat) }
 // format! whose format string has literal text outside the placeholders: the result is never empty
 #[verifier::external_body]
 pub fn vx_fmt_nonempty() -> (r: String) ensures r@.len() > 0 { String::from("x") }
